@@ -23,7 +23,7 @@ Gallina over coq/model/HandlerApi.v:
 Comments, formatting and the names of locals / parameters (all become v_<name>) are normalised away.  Anything outside the
 subset raises TranslateError naming file and line: a broken tie, never silently skipped."""
 import re
-from rsutil import TranslateError, read, strip_comments, cut_tests, matching_brace
+from rsutil import TranslateError, read, strip_comments, cut_tests, matching_brace, enum_variants
 from t_lineindex import P as BaseP, tokenize, ASSIGN_OPS
 
 FOLDING = "crates/ide/src/handlers/folding_range.rs"
@@ -31,6 +31,14 @@ UTILS = "crates/ide/src/utils.rs"
 HOVER = "crates/ide/src/handlers/hover.rs"
 DOCSYM = "crates/ide/src/handlers/document_symbol.rs"
 INLAY = "crates/ide/src/handlers/inlay_hint.rs"
+GOTO = "crates/ide/src/handlers/goto_definition.rs"
+REFS = "crates/ide/src/handlers/references.rs"
+VARIABLE = "crates/ide/src/symbol_map/variable.rs"
+COMPLETION = "crates/ide/src/handlers/completion.rs"
+# `ctx.complete_x()` of completion.rs: the vocabulary methods are read as TABLES by t_completion.py (GenCompletion.v)
+CTX_METHODS = {"complete_bang_operators": (0, "bang_operator_items"), "complete_toplevel_keywords": (0, "toplevel_keyword_items"),
+               "complete_primitive_values": (0, "primitive_value_items"), "complete_primitive_types": (0, "primitive_type_items"),
+               "complete_classes": (1, "complete_classes (cm_classes %s)")}
 
 # ----------------------------------------------------------------------------- parser extension
 
@@ -277,9 +285,9 @@ CURSORISH = ("node", "token", "element")
 ENTRY_TYPES = ("record", "targ", "field", "variable", "defset", "multiclass", "defm")
 SV_CTORS = [("Record", "record"), ("TemplateArgument", "targ"), ("RecordField", "field"), ("Variable", "variable"),
             ("Defset", "defset"), ("Multiclass", "multiclass"), ("Defm", "defm")]
-SM_EFFECT_METHODS = ("template_arg", "record_field", "record", "symbol", "iter_symbols_in_range")
+SM_EFFECT_METHODS = ("template_arg", "record_field", "record", "symbol", "iter_symbols_in_range", "find_symbol_at")
 IGNORED_MACROS = ("tracing",)
-RUST_TYPES = {"SymbolMap": "symmap", "Symbol": "symview", "dynIndexDatabase": "idb", "DocumentSymbol": "docsym",
+RUST_TYPES = {"CompletionItem": "compitem", "FilePosition": "filepos", "Hover": "hover", "SymbolMap": "symmap", "Symbol": "symview", "dynIndexDatabase": "idb", "DocumentSymbol": "docsym",
               "FileRange": "filerange", "Record": "record", "RecordField": "field", "InlayHint": "hint",
               "SyntaxNode": "node", "SyntaxToken": "token", "SyntaxElement": "element", "TextRange": "range",
               "TextSize": "size", "String": "str", "str": "str", "FileId": "fileid", "dynSourceDatabase": "db",
@@ -295,6 +303,21 @@ def rust_type(t, fname, line):
     m = re.fullmatch(r"Vec<(.*)>", t)
     if m:
         return ("list", rust_type(m.group(1), fname, line))
+    if t.startswith("(") and t.endswith(")"):
+        parts, depth, cur = [], 0, ""
+        for ch in t[1:-1]:
+            if ch in "<(":
+                depth += 1
+            elif ch in ">)":
+                depth -= 1
+            if ch == "," and depth == 0:
+                parts.append(cur)
+                cur = ""
+            else:
+                cur += ch
+        if cur:
+            parts.append(cur)
+        return ("tuple", [rust_type(x, fname, line) for x in parts])
     if t in RUST_TYPES:
         return RUST_TYPES[t]
     raise TranslateError("%s:%d: unsupported type %s" % (fname, line, t))
@@ -320,7 +343,7 @@ def coq_type(t):
         return {"symid": "symbol_id"}.get(t, "N")
     return {"symmap": "symbol_map", "symview": "symview", "idb": "index_db", "index": "index_db", "docsym": "docsym",
             "filerange": "file_range", "rkind": "option record_kind", "dskind": "ds_kind", "tytype": "name",
-            "hint": "hint", "hkind": "hint_kind",
+            "hint": "hint", "hkind": "hint_kind", "filepos": "file_pos", "hover": "hover_result", "vkind": "unit", "compitem": "comp_item", "cctx": "list comp_item",
             "kind": "SyntaxKind", "range": "trange", "size": "N", "usize": "nat", "bool": "bool", "str": "text",
             "char": "N", "unit": "unit", "tree": "tree", "db": "parse_db", "fileid": "N"}[t]
 
@@ -430,6 +453,8 @@ class Gen:
         if isinstance(x, tuple):
             if x and x[0] in ("try", "return", "break", "loop", "whilelet", "while", "for"):
                 return True
+            if x and x[0] == "macro" and x[1] == ["unreachable"]:
+                return True
             if x and x[0] == "closure":
                 return False          # a closure is a value; its own effects are handled where it is applied
             if x and x[0] == "mcall" and x[2] in ("map", "filter", "filter_map") and len(x[3]) == 1 \
@@ -501,7 +526,7 @@ class Gen:
                 self.fail(x[4], "assignment to something that is not a local variable")
             self.assigned(x[3], local, acc)
             return
-        if k == "mcall" and x[2] in ("push", "extend", "retain") and x[1][0] == "path" and len(x[1][1]) == 1:
+        if k == "mcall" and (x[2] in ("push", "extend", "retain") or x[2] in CTX_METHODS) and x[1][0] == "path" and len(x[1][1]) == 1:
             if x[1][1][0] not in local:
                 acc.append(x[1][1][0])
             self.assigned(x[3], local, acc)
@@ -607,6 +632,12 @@ class Gen:
                 if ty != "range":
                     self.fail(e[3], "FoldingRange { range } of a non-range")
                 return "mk_folding_range %s" % atom(t), "range"
+            if e[1] == ["Hover"] and [f for f, _ in e[2]] == ["signature", "document"]:
+                a0, t0 = self.tr(e[2][0][1], env, em, "str")
+                a1, t1 = self.tr(e[2][1][1], env, em, ("opt", "str"))
+                if t0 != "str" or not same(t1, ("opt", "str")):
+                    self.fail(e[3], "Hover { signature: %s, document: %s }" % (t0, t1))
+                return "mk_hover %s %s" % (atom(a0), atom(a1)), "hover"
             if e[1] == ["DocumentSymbol"] and [f for f, _ in e[2]] == ["name", "typ", "range", "kind", "children"]:
                 want = ["str", "str", "range", "dskind", ("list", "docsym")]
                 ts = []
@@ -621,9 +652,21 @@ class Gen:
             return self.tr_control(e, env, em, expect)
         if k == "field":
             return self.tr_field(e, env, em)
+        if k == "tuple" and len(e[1]) >= 2:
+            want = expect[1] if isinstance(expect, tuple) and expect[0] == "tuple" and len(expect[1]) == len(e[1]) else [None] * len(e[1])
+            ts, tys = [], []
+            for x, w in zip(e[1], want):
+                t, ty = self.tr(x, env, em, w)
+                ts.append(t)
+                tys.append(ty)
+            return tuple_term(ts), ("tuple", tys)
         if k == "closure":
             self.fail(e[3], "closure outside a call argument")
         if k == "macro":
+            if e[1] == ["unreachable"]:
+                if em is None:
+                    self.fail(e[3], "unreachable! in a pure context")
+                return em.bind(self, "Panic"), None
             if e[1] == ["format"] and e[2] and e[2][0][0] == "str":
                 from rsutil import unescape_rust_str
                 lit = unescape_rust_str(e[2][0][1])
@@ -685,6 +728,8 @@ class Gen:
                 self.fail(line, "comparison of %s with %s" % (tya, tyb))
             eq = {"kind": "sk_eqb", "usize": "Nat.eqb", "size": "N.eqb", "bool": "Bool.eqb", "char": "N.eqb",
                   "rkind": "opt_rk_eqb", "fileid": "N.eqb"}.get(tya)
+            if isinstance(tya, tuple) and tya == ("opt", "str") and same(tyb, tya):
+                eq = "opt_text_eqb"
             if eq is None:
                 self.fail(line, "== on type %s" % (tya,))
             t = "%s %s %s" % (eq, atom(ta), atom(tb))
@@ -735,6 +780,14 @@ class Gen:
                 return "fr_range %s" % a, "range"
             if f == "file":
                 return "fr_file %s" % a, "fileid"
+        if ty == "field" and f == "parent":
+            return "en_field_parent %s" % a, "recordid"
+        if ty == "variable" and f == "kind":
+            return "en_vkind %s" % a, "vkind"
+        if ty == "filepos" and f == "file":
+            return "fp_file %s" % a, "fileid"
+        if ty == "filepos" and f == "position":
+            return "fp_position %s" % a, "size"
         if ty == "hint" and f == "position":
             return "h_pos %s" % a, "size"
         self.fail(line, "unsupported field .%s of %s" % (f, ty))
@@ -797,6 +850,13 @@ class Gen:
             if (t0, t1, t2) != ("size", "str", "hkind"):
                 self.fail(line, "InlayHint::new(%s, %s, %s)" % (t0, t1, t2))
             return "mk_inlay_hint %s %s %s" % (atom(a0), atom(a1), atom(a2)), "hint"
+        if p == ["CompletionContext", "new"] and not args:
+            return "[]", "cctx"
+        if p == ["ast", "Type", "can_cast"] and len(args) == 1:
+            t, ty = self.tr(args[0], env, em, "kind")
+            if ty != "kind":
+                self.fail(line, "can_cast of %s" % (ty,))
+            return "ast_type_can_cast %s" % atom(t), "bool"
         if p == ["Vec", "new"] and not args:
             return "[]", ("list", None)
         name = p[-1]
@@ -830,6 +890,12 @@ class Gen:
             if tys != "str" or tyc != "char":
                 self.fail(line, "matches(..).count() on %s / %s" % (tys, tyc))
             return "st_count_char %s %s" % (atom(ts), atom(tc)), "usize"
+        if m == "left_biased" and not args and recv[0] == "mcall" and recv[2] == "token_at_offset" and len(recv[3]) == 1:
+            tn, tyn = self.tr(recv[1], env, em)
+            to, tyo = self.tr(recv[3][0], env, em, "size")
+            if tyn != "node" or tyo != "size":
+                self.fail(line, "token_at_offset(..).left_biased() on %s / %s" % (tyn, tyo))
+            return "rw_token_at_offset_left %s %s" % (atom(tn), atom(to)), ("opt", "token")
         t, ty = self.tr(recv, env, em)
         a = atom(t)
         n = len(args)
@@ -864,6 +930,9 @@ class Gen:
                 return fmt % a, rty
             if m == "into" and n == 0:
                 return t, "element"
+            if m == "token_at_offset" and n == 1 and ty == "node":
+                x, _ = arg(0, "size")
+                return "(%s, %s)" % (a, x), "tokenatoffset"
             if m == "covering_element" and n == 1 and ty == "node":
                 if em is None:
                     self.fail(line, "covering_element (asserts) in a pure context")
@@ -934,7 +1003,8 @@ class Gen:
             if (m, n) == ("iter_symbols_in_file", 1):
                 f, _ = arg(0, "fileid")
                 return "sm_iter_symbols_in_file %s %s" % (a, f), ("opt", ("list", "symid"))
-            acc = {"symbol": ("sm_symbol", "symid", "symview"), "template_arg": ("sm_template_arg", "targid", "targ"),
+            acc = {"find_symbol_at": ("sm_find_symbol_at", "filepos", ("opt", "symview")),
+                   "symbol": ("sm_symbol", "symid", "symview"), "template_arg": ("sm_template_arg", "targid", "targ"),
                    "record_field": ("sm_record_field", "fieldid", "field"), "record": ("sm_record", "recordid", "record"),
                    "iter_symbols_in_range": ("sm_iter_symbols_in_range", "filerange",
                                              ("opt", ("list", ("tuple", ["filerange", "symid"]))))}
@@ -944,6 +1014,19 @@ class Gen:
                 fn_, aty, rty = acc[m]
                 x, _ = arg(0, aty)
                 return em.bind(self, "hsres (%s %s %s)" % (fn_, a, x)), rty
+        if ty == "cctx" and (m, n) == ("finish", 0):
+            return t, ("list", "compitem")
+        if ty == "node" and (m, n) == ("token_at_offset", 1):
+            x, _ = arg(0, "size")
+            return "(%s, %s)" % (a, x), "tokenatoffset"
+        if ty == "tokenatoffset" and (m, n) == ("left_biased", 0):
+            return "rw_token_at_offset_left (fst %s) (snd %s)" % (a, a), ("opt", "token")
+        if ty == "symview" and (m, n) == ("define_loc", 0):
+            return "sv_define_loc %s" % a, "filerange"
+        if ty == "symview" and (m, n) == ("reference_locs", 0):
+            return "sv_reference_locs %s" % a, ("list", "filerange")
+        if isinstance(ty, tuple) and ty[0] == "list" and (m, n) == ("to_vec", 0):
+            return t, ty
         if ty in ("record", "multiclass") and (m, n) == ("iter_template_arg", 0):
             return "en_iter_template_arg %s" % a, ("list", "targid")
         if ty == "record" and (m, n) == ("iter_field", 0):
@@ -1054,6 +1137,32 @@ class Gen:
             self.fail("?", "not a control expression")
         scrut, arms, line = e[1], e[2], e[3]
         t, ty = self.tr(scrut, env, em)
+        if ty == "vkind":
+            variants = enum_variants(cut_tests(strip_comments(read(self.repo, VARIABLE))), "VariableKind")
+            seen, bodies = set(), []
+            for pat, guard, body in arms:
+                if guard is not None:
+                    self.fail(line, "guard in a match on VariableKind")
+                alts = pat[1] if pat[0] == "por" else [pat]
+                for q in alts:
+                    if q == ("pwild",):
+                        seen |= set(variants)
+                    elif q[0] == "ppath" and len(q[1]) == 2 and q[1][0] == "VariableKind" and q[1][1] in variants:
+                        seen.add(q[1][1])
+                    else:
+                        self.fail(line, "pattern on a VariableKind")
+                bodies.append(body)
+            if seen != set(variants):
+                self.fail(line, "non-exhaustive match on VariableKind")
+            rendered = []
+            for b in bodies:
+                if self.has_effect(b) or b[0] != "block" or b[1] or b[2] is None:
+                    self.fail(line, "arm of a match on VariableKind is not a pure expression")
+                rendered.append(self.tr(b[2], env, None)[0])
+            if any(r != rendered[0] for r in rendered[1:]):
+                # VariableKind is not in the symbol-map model: only a match whose arms all agree can be rendered
+                self.fail(line, "the arms of a match on VariableKind differ (VariableKind is not modelled)")
+            return ("one", (bodies[0], env))
         if ty == "symview":
             cases = []
             for ctor, ety in SV_CTORS:
@@ -1098,7 +1207,7 @@ class Gen:
                         node = (("__arms", ("if", g, (body, en), node)), en)
                 cases.append((ctor, self.v(binder) if binder else "_", node))
             return ("sv", t, cases)
-        if any(g is not None for _, g, _ in arms):
+        if ty != "kind" and any(g is not None for _, g, _ in arms):
             self.fail(line, "match guard")
         if ty == "bool":
             tb = fb = None
@@ -1116,10 +1225,20 @@ class Gen:
                 self.fail(line, "non-exhaustive match on bool")
             return ("if", t, (tb, env), (fb, env))
         if ty == "kind":
-            if not arms or arms[-1][0] != ("pwild",):
-                self.fail(line, "a match on SyntaxKind must end in a `_` arm")
+            if not arms or arms[-1][0] != ("pwild",) or arms[-1][1] is not None:
+                self.fail(line, "a match on SyntaxKind must end in an unguarded `_` arm")
             node = (arms[-1][2], env)
-            for pat, _, body in reversed(arms[:-1]):
+            for pat, guard, body in reversed(arms[:-1]):
+                if pat == ("pwild",) and guard is not None:
+                    if self.has_effect(guard):
+                        self.fail(line, "effect in a match guard")
+                    g, gty = self.tr(guard, env, None, "bool")
+                    if gty != "bool":
+                        self.fail(line, "guard is not a bool")
+                    node = (("__arms", ("if", g, (body, env), node)), env)
+                    continue
+                if guard is not None:
+                    self.fail(line, "guard on a SyntaxKind pattern")
                 alts = pat[1] if pat[0] == "por" else [pat]
                 tests = []
                 for q in alts:
@@ -1180,6 +1299,8 @@ class Gen:
             if b[0] == "__arms":
                 return self.render_arms(b[1], blk, expect)
             return blk(b, en)
+        if arms[0] == "one":
+            return sub(arms[1])
         if arms[0] == "sv":
             outs, rty = [], None
             for ctor, var, node in arms[2]:
@@ -1245,6 +1366,10 @@ class Gen:
         return "Val %s" % tuple_term([self.v(n) for n in arg]), "unit"
 
     def seq(self, stmts, i, tail, env, ctx, end):
+        if end[0] == "state" and tail is not None and tail[0] == "mcall" and tail[1][0] == "path" \
+                and (tail[2] in CTX_METHODS or tail[2] in ("push", "extend", "retain")):
+            stmts = list(stmts) + [("expr", tail, tail[4])]
+            tail = None
         if end[0] == "state" and tail is not None and tail[0] in ("match", "if", "iflet"):
             # a control statement in tail position of a statement block
             stmts = list(stmts) + [("matchstmt" if tail[0] == "match" else "ifstmt", tail, tail[-1])]
@@ -1289,6 +1414,20 @@ class Gen:
                     ty = ("list", self.infer_elem(p[1], self.cur_body))
                 r, rty = rest(self.env_bind(env, p[1], ty))
                 return em.prefix() + "let %s := %s in\n%s" % (self.v(p[1]), t, r), rty
+            if p[0] == "ptuple" and all(q[0] in ("pbind", "pwild") for q in p[1]):
+                em = Emit()
+                t, ty = self.tr(init, env, em)
+                if not (isinstance(ty, tuple) and ty[0] == "tuple" and len(ty[1]) == len(p[1])):
+                    self.fail(line, "tuple pattern on %s" % (ty,))
+                tmp = self.fresh()
+                lets = "let %s := %s in\n" % (tmp, t)
+                e2 = env
+                for q, qt, pr in zip(p[1], ty[1], tuple_projs(len(p[1]), tmp)):
+                    if q[0] == "pbind":
+                        e2 = self.env_bind(e2, q[1], qt)
+                        lets += "let %s := %s in\n" % (self.v(q[1]), pr)
+                r, rty = rest(e2)
+                return em.prefix() + lets + r, rty
             self.fail(line, "unsupported let pattern")
         if k == "assign":
             op, lhs, rhs, line = s[1], s[2], s[3], s[4]
@@ -1352,6 +1491,18 @@ class Gen:
                     nty = lty
                 r, rty2 = rest(self.env_bind(env, name, nty))
                 return em.prefix() + "let %s := %s in\n%s" % (self.v(name), new, r), rty2
+            if e[0] == "mcall" and e[2] in CTX_METHODS and e[1][0] == "path" and len(e[1][1]) == 1 \
+                    and env["vars"].get(e[1][1][0]) == "cctx" and len(e[3]) == CTX_METHODS[e[2]][0]:
+                name = e[1][1][0]
+                em = Emit()
+                tbl = CTX_METHODS[e[2]][1]
+                if e[3]:
+                    t, ty = self.tr(e[3][0], env, em, "symmap")
+                    if ty != "symmap":
+                        self.fail(line, "complete_classes(%s)" % (ty,))
+                    tbl = tbl % atom(t)
+                r, rty2 = rest(env)
+                return em.prefix() + "let %s := %s ++ %s in\n%s" % (self.v(name), self.v(name), tbl, r), rty2
             if e[0] == "macro" and e[1][0] in IGNORED_MACROS:
                 return rest(env)              # logging: no effect on the result
             self.fail(line, "unsupported expression statement")
@@ -1571,12 +1722,17 @@ TARGETS = [
     (INLAY, "inlay_hint_class", "src_inlay_hint_class"),
     (INLAY, "inlay_hint_record_field", "src_inlay_hint_record_field"),
     (INLAY, "exec", "src_inlay_hint_exec"),
+    (HOVER, "extract_symbol_signature", "src_extract_symbol_signature"),
+    (HOVER, "exec", "src_hover_exec"),
+    (GOTO, "exec", "src_goto_definition_exec"),
+    (REFS, "exec", "src_references_exec"),
 ]
 # the files must not grow other top-level fns that these could start to depend on unnoticed
 EXPECTED_FNS = {UTILS: ["range_excluding_trivia"], FOLDING: ["exec"],
                 HOVER: ["exec", "extract_symbol_signature", "extract_doc_comments", "prev_token"],
                 DOCSYM: ["exec", "symbol_to_document_symbol"],
-                INLAY: ["exec", "inlay_hint_class", "inlay_hint_record_field"]}
+                INLAY: ["exec", "inlay_hint_class", "inlay_hint_record_field"],
+                GOTO: ["exec"], REFS: ["exec"]}
 
 
 def translate(repo):
@@ -1604,9 +1760,26 @@ def translate(repo):
         out.append(g.fn(fn, coqname))
         if name == "exec":
             g.fns.pop("exec", None)
-    return {"GenHandlers.v": "\n".join(out)}
+    # completion.rs `exec` (body only; the vocabulary methods stay tables of t_completion.py): its own file, so that the cone of
+    # C18 / C19 does not grow by the lexer / parser models Completion.v needs
+    want_c = ["exec"]
+    got_c = top_fn_names(repo, COMPLETION)
+    if sorted(got_c) != want_c:
+        raise TranslateError("%s: top-level fns %s, expected %s" % (COMPLETION, got_c, want_c))
+    g2 = Gen(repo)
+    out2 = ["(* GENERATED by tools/translate/t_handlers.py from %s (exec) -- do not edit *)" % COMPLETION,
+            "From Coq Require Import List NArith Bool.",
+            "From TG.Gen Require Import GenTokens GenCompletion.",
+            "From TG.Model Require Import Chars Tree TreeNav SymbolMap HandlerApi HandlerSymApi Completion HandlerCompApi.",
+            "Import ListNotations.",
+            "Open Scope N_scope.",
+            "",
+            g2.fn(parse_top_fn(repo, COMPLETION, "exec"), "src_completion_exec")]
+    return {"GenHandlers.v": "\n".join(out), "GenHandlersCompletion.v": "\n".join(out2)}
 
 
 if __name__ == "__main__":
     import sys
-    print(translate(sys.argv[1] if len(sys.argv) > 1 else "/repo")["GenHandlers.v"])
+    r_ = translate(sys.argv[1] if len(sys.argv) > 1 else "/repo")
+    print(r_["GenHandlers.v"])
+    print(r_["GenHandlersCompletion.v"])
